@@ -1,14 +1,24 @@
-//! C35 replay: "Exporting the same workspace twice gives byte-identical output" + the exactly-once / nothing-from-libraries
-//! sentences, on the REAL `emmylua_doc_cli::run_doc_cli` (the JSON generator: json_generator::export::export).
-//!   replay [runs]                 writes a small workspace (8 classes, 2 enums, 2 aliases, 8 globals, 12 module files in the
-//!                                 main workspace; a library with a class, an alias and two globals), then starts itself
+//! C35 replay: "The JSON documentation export lists every class, enum, alias, global and module declared in the main
+//! workspace exactly once, and nothing from libraries or the standard library. Exporting the same workspace twice gives
+//! byte-identical output" — on the REAL `emmylua_doc_cli::run_doc_cli` (JSON generator: json_generator::export::export).
+//!
+//!   replay [runs]                 writes a small workspace (main: 8 classes one per module file, 2 enums + 2 aliases in a
+//!                                 file that returns nothing, two file-private classes with the SAME name in two files, 12
+//!                                 globals, 16 module files; library: a class, an alias, two globals), then starts itself
 //!                                 `runs` times (default 4) as a CHILD PROCESS, each child exporting the same workspace to
-//!                                 its own doc.json. Compares the files byte for byte and the order of the names in
-//!                                 `types` / `modules` / `globals`. Prints `FOUND ...` and exits 1 when two exports differ
-//!                                 (or when an entry is missing / duplicated / comes from the library); exit 0 otherwise.
+//!                                 its own doc.json (a new process = a new random seed of hashbrown's default hasher).
+//!                                 Checks, each reported as `FOUND[<clause>] ...`:
+//!                                   [order]            the names in `types` / `modules` / `globals` come in different orders
+//!                                   [entry-bytes]      with the three lists brought into one order the files still differ: first
+//!                                                      differing JSON path (nondeterminism INSIDE an entry)
+//!                                   [exactly-once]     a main-workspace class / enum / alias / global is missing or listed twice
+//!                                   [from-library]     a library item is listed
+//!                                   [module-missing]   a main-workspace module file is not listed (literal reading of the property)
+//!                                 exit 1 when anything was found, 0 otherwise.
 //!   replay child <ws> <out.json>  one export (what `emmylua_doc_cli <ws> -f json -o <out.json>` does)
-//! Decides nothing: a hit is a concrete workspace on which two runs of the real exporter produce different bytes.
+//! Decides nothing: a hit is a concrete workspace on which the real exporter violates the sentence.
 use emmylua_doc_cli::{CmdArgs, Parser, run_doc_cli};
+use serde_json::Value;
 use std::path::{Path, PathBuf};
 
 fn write(p: &Path, s: &str) {
@@ -27,10 +37,13 @@ fn make_workspace(root: &Path) -> PathBuf {
         write(&main.join(format!("mod_{}.lua", c.to_lowercase())),
               &format!("---@class {c}\n---@field n{i} integer\nlocal {c} = {{}}\n\n{g} = {i}\n\nreturn {c}\n", g = GLOBALS[i]));
     }
-    // enums / aliases, in a file that returns NOTHING (module without export value)
+    // enums / aliases, in a file that returns NOTHING (a module without export value)
     write(&main.join("kinds.lua"),
-          "---@enum Colour\nlocal Colour = { Red = 1, Green = 2 }\n\n---@enum Shape\nlocal Shape = { Dot = 1 }\n\n---@alias Ident string\n\n---@alias Count integer\n");
-    // globals whose type cannot be inferred / is nil / is declared twice
+          "---@enum Colour\nlocal Colour = { Red = 1, Green = 2, Blue = 3 }\n\n---@enum Shape\nlocal Shape = { Dot = 1, Line = 2 }\n\n---@alias Ident string\n\n---@alias Count integer\n");
+    // two file-private classes with the same full name (LuaTypeDeclId::File(file, "Dup")): a tie for any sort by name
+    write(&main.join("priv_a.lua"), "---@class (private) Dup\n---@field a integer\nlocal Dup = {}\nreturn Dup\n");
+    write(&main.join("priv_b.lua"), "---@class (private) Dup\n---@field b string\nlocal Dup = {}\nreturn Dup\n");
+    // globals whose type cannot be inferred / is nil / is assigned twice / is a function
     write(&main.join("odd_globals.lua"), "g_unresolved = some_undefined_function()\ng_nil = nil\ng_twice = 1\ng_twice = 2\nfunction g_func() end\n");
     write(&main.join("sub/one.lua"), "return { x = 1 }\n");
     write(&main.join("sub/two.lua"), "return 42\n");
@@ -41,8 +54,50 @@ fn make_workspace(root: &Path) -> PathBuf {
     main
 }
 
-fn names(v: &serde_json::Value, key: &str) -> Vec<String> {
+fn names(v: &Value, key: &str) -> Vec<String> {
     v.get(key).and_then(|a| a.as_array()).map(|a| a.iter().map(|e| e.get("name").and_then(|n| n.as_str()).unwrap_or("?").to_string()).collect()).unwrap_or_default()
+}
+
+/// first path at which two JSON values differ
+fn first_diff(a: &Value, b: &Value, path: String) -> Option<String> {
+    match (a, b) {
+        (Value::Object(x), Value::Object(y)) => {
+            for (k, va) in x {
+                match y.get(k) { Some(vb) => if let Some(d) = first_diff(va, vb, format!("{path}.{k}")) { return Some(d); }, None => return Some(format!("{path}.{k} (missing)")) }
+            }
+            if x.len() != y.len() { return Some(format!("{path} (different keys)")); }
+            None
+        }
+        (Value::Array(x), Value::Array(y)) => {
+            if x.len() != y.len() { return Some(format!("{path} (lengths {} / {})", x.len(), y.len())); }
+            for (i, (va, vb)) in x.iter().zip(y).enumerate() { if let Some(d) = first_diff(va, vb, format!("{path}[{i}]")) { return Some(d); } }
+            None
+        }
+        _ => if a == b { None } else { Some(format!("{path}: {a} / {b}")) },
+    }
+}
+
+/// the document with `types` / `modules` / `globals` sorted by (name, loc / file)
+fn normalized(v: &Value) -> Value {
+    let mut v = v.clone();
+    for key in ["types", "modules", "globals"] {
+        if let Some(a) = v.get_mut(key).and_then(|a| a.as_array_mut()) {
+            a.sort_by_key(|e| (e.get("name").map(|n| n.to_string()).unwrap_or_default(),
+                               e.get("loc").map(|n| n.to_string()).unwrap_or_default(), e.get("file").map(|n| n.to_string()).unwrap_or_default()));
+        }
+    }
+    v
+}
+
+fn check_names(run: usize, what: &str, got: &[String], want: &[(&str, usize)], library: &[&str], bad: &mut bool) {
+    for (n, k) in want {
+        let c = got.iter().filter(|g| g == n).count();
+        if c != *k { println!("FOUND[exactly-once] run {run}: {what} `{n}` listed {c} time(s), expected {k}"); *bad = true; }
+    }
+    for g in got {
+        if library.contains(&g.as_str()) { println!("FOUND[from-library] run {run}: {what} `{g}` comes from the library"); *bad = true; }
+        else if !want.iter().any(|(n, _)| n == g) { println!("FOUND[exactly-once] run {run}: unexpected {what} `{g}`"); *bad = true; }
+    }
 }
 
 fn main() {
@@ -65,36 +120,42 @@ fn main() {
         if !st.success() { println!("UNDECIDED child {i} failed: {st:?}"); std::process::exit(2); }
         outs.push(std::fs::read(&out).expect("read export"));
     }
-    let docs: Vec<serde_json::Value> = outs.iter().map(|b| serde_json::from_slice(b).expect("json")).collect();
+    let docs: Vec<Value> = outs.iter().map(|b| serde_json::from_slice(b).expect("json")).collect();
     let mut bad = false;
-    // (a) exactly once / nothing from libraries, on every run
-    for (i, d) in docs.iter().enumerate() {
-        let mut t = names(d, "types"); t.sort();
-        let mut want_t: Vec<String> = CLASSES.iter().map(|s| s.to_string()).chain(["Colour", "Shape", "Ident", "Count"].map(String::from)).collect(); want_t.sort();
-        if t != want_t { println!("FOUND run {i}: types = {t:?}, expected exactly {want_t:?}"); bad = true; }
-        let mut g = names(d, "globals"); g.sort();
-        let mut want_g: Vec<String> = GLOBALS.iter().map(|s| s.to_string()).collect(); want_g.sort();
-        if g != want_g { println!("FOUND run {i}: globals = {g:?}, expected exactly {want_g:?}"); bad = true; }
-        let mut m = names(d, "modules"); m.sort();
-        let mut want_m: Vec<String> = CLASSES.iter().map(|c| format!("mod_{}", c.to_lowercase())).chain(["kinds", "sub.one", "sub.two", "sub.three"].map(String::from)).collect(); want_m.sort();
-        if m != want_m {
-            let missing: Vec<&String> = want_m.iter().filter(|x| !m.contains(x)).collect();
-            let extra: Vec<&String> = m.iter().filter(|x| !want_m.contains(x)).collect();
-            println!("FOUND run {i}: modules: missing {missing:?} extra {extra:?} (12 module files in the main workspace)"); bad = true;
-        }
+    // (a) exactly once / nothing from libraries (run 0 is enough: the SET of entries does not depend on the order)
+    let want_t: Vec<(&str, usize)> = CLASSES.iter().map(|c| (*c, 1)).chain([("Colour", 1), ("Shape", 1), ("Ident", 1), ("Count", 1), ("Dup", 2)]).collect();
+    check_names(0, "type", &names(&docs[0], "types"), &want_t, &["LibOnlyClass", "LibOnlyAlias"], &mut bad);
+    let want_g: Vec<(&str, usize)> = GLOBALS.iter().map(|g| (*g, 1)).chain([("g_unresolved", 1), ("g_nil", 1), ("g_twice", 1), ("g_func", 1)]).collect();
+    check_names(0, "global", &names(&docs[0], "globals"), &want_g, &["lib_only_global", "lib_only_global2"], &mut bad);
+    let mods: Vec<String> = CLASSES.iter().map(|c| format!("mod_{}", c.to_lowercase()))
+        .chain(["kinds", "priv_a", "priv_b", "odd_globals", "sub.one", "sub.two", "sub.three"].map(String::from)).collect();
+    let got_m = names(&docs[0], "modules");
+    for m in &mods {
+        let c = got_m.iter().filter(|g| *g == m).count();
+        if c == 0 { println!("FOUND[module-missing] module file `{m}` of the main workspace is not listed in `modules`"); bad = true; }
+        else if c > 1 { println!("FOUND[exactly-once] module `{m}` listed {c} times"); bad = true; }
+    }
+    for g in &got_m {
+        if g == "libmod" { println!("FOUND[from-library] module `{g}` comes from the library"); bad = true; }
+        else if !mods.contains(g) { println!("FOUND[exactly-once] unexpected module `{g}`"); bad = true; }
     }
     // (b) reproducibility across processes
     for i in 1..runs {
-        if outs[i] != outs[0] {
-            bad = true;
-            println!("FOUND run 0 and run {i} export the same workspace to DIFFERENT bytes ({} vs {} bytes)", outs[0].len(), outs[i].len());
-            for key in ["types", "modules", "globals"] {
-                let (x, y) = (names(&docs[0], key), names(&docs[i], key));
-                if x != y { println!("  {key} order run 0: {x:?}\n  {key} order run {i}: {y:?}"); }
-            }
+        if outs[i] == outs[0] { continue; }
+        bad = true;
+        let mut order = false;
+        for key in ["types", "modules", "globals"] {
+            let (x, y) = (names(&docs[0], key), names(&docs[i], key));
+            if x != y { order = true; println!("FOUND[order] run 0 / run {i}: `{key}` of the same workspace in different orders\n  run 0: {x:?}\n  run {i}: {y:?}"); }
+        }
+        // compare the ENTRIES irrespective of the order of the three lists (sorted by name, then location)
+        if let Some(d) = first_diff(&normalized(&docs[0]), &normalized(&docs[i]), "$".into()) {
+            println!("FOUND[entry-bytes] run 0 / run {i}: with the three lists brought into the same order, the exports still differ at {d}");
+        } else if !order {
+            println!("FOUND[entry-bytes] run 0 / run {i}: same entries in the same order, but different bytes (formatting)");
         }
     }
-    if !bad { println!("OK {runs} exports of the same workspace are byte-identical ({} bytes) and list every main-workspace item once", outs[0].len()); }
+    if !bad { println!("OK {runs} exports of the same workspace are byte-identical ({} bytes); every main-workspace item is listed once, nothing from the library", outs[0].len()); }
     let _ = std::fs::remove_dir_all(&root);
     std::process::exit(if bad { 1 } else { 0 });
 }
